@@ -18,10 +18,17 @@ import calc_ops as CO
 from calc_ops import rtok, dy_tokens, is_dy, ode_tokens
 
 LEVEL = "translation_validation"
-LEAN_MODULES = ["MpProofs.CalcRef", "MpProofs.CalcOde", "MpProofs.CalcLogicB", "Props.C34"]
+LEAN_MODULES = ["MpProofs.CalcRef", "MpProofs.CalcOde", "MpProofs.CalcLogicB", "Props.C34", "Props.C34tol"]
 ASSUMPTIONS = [
     "'within the requested tolerance (default about 2^(10-p))' is instantiated as |y - y_exact| <= 2^10 * tol * max(|y_exact|, 1) with "
     "tol = 2^-p by default (p = mp.prec when odefun was called) or the tol argument (a power of two)",
+    "an EXPLICIT tolerance tol = 2^-t with 20 <= t <= p - 10 is additionally decided literally ('within the requested tolerance'): "
+    "|y - y_exact| <= tol * max(|y_exact|, 1) for every value observed at a caller precision >= p; these inputs have their own site "
+    "odefun[accuracy,explicit-tol]: for t + 10 <= p the first Taylor segment has enough working precision (p*(n+1) >= (t+10)*n bits), so "
+    "the mechanism of the known finding CA-odefun-acc (first segment computed with too few bits at the DEFAULT tolerance) is absent",
+    "explicit-tolerance runs also use the non-autonomous problem y' = -2(x-c)y^2, y(x0) = y0 > 0, c <= x0 (exact solution "
+    "1/(1/y0 + (x-c)^2 - (x0-c)^2), Props/C34tol.lean); for c = x0 and an odd Taylor degree the top Taylor coefficient at x0 is exactly "
+    "zero; those inputs are reported under the site odefun[accuracy,explicit-tol,top-taylor-coefficient-zero]",
     "problems: y' = a*y (|a| <= 3), harmonic oscillator (w <= 4), y' = -y^2 (y0 > 0), rational data, x0 and query points dyadic, "
     "x - x0 <= 4; the right-hand side is evaluated by mpmath at the precision ode_taylor sets",
     "history independence is checked bit-exactly on the returned values (same x, same caller precision) and on the closure's "
@@ -43,9 +50,25 @@ def gen_ode(r):
     return {"ode": "riccati", "x0": rtok(x0), "y0": rtok(Fraction(r.randint(1, 12), r.choice([1, 2, 4, 3])))}
 
 
-def case_ode(r, st, quick):
+def gen_ricx(r):
+    """y' = -2(x-c)y^2: c = x0 (every odd Taylor coefficient at x0 vanishes) or c < x0 (none does)"""
+    x0 = Fraction(r.randint(-16, 16), 8)
+    c = x0 if r.random() < 0.4 else x0 - Fraction(r.randint(1, 16), 8)
+    return {"ode": "ricx", "c": rtok(c), "x0": rtok(x0), "y0": rtok(Fraction(r.randint(1, 12), r.choice([1, 2, 4, 3])))}
+
+
+def case_ode(r, st, quick, explicit=False):
+    """explicit=True: the explicit-tolerance class (tol = 2^-t, 20 <= t <= prec - 10), mostly nonlinear right-hand sides"""
     ode = gen_ode(r)
     prec = r.choice([30, 53, 53, 64, 100, 150] if quick else [30, 53, 64, 100, 150, 200, 300])
+    if explicit:
+        k = r.random()
+        if k < 0.45:
+            while ode["ode"] != "riccati":
+                ode = gen_ode(r)
+        elif k < 0.8:
+            ode = gen_ricx(r)
+        prec = r.choice([53, 53, 64, 100, 100, 150, 200] if quick else [53, 64, 100, 150, 200, 300])
     x0 = Fraction(ode["x0"])
     span = Fraction(r.choice([1, 2, 4, 8, 16, 32]), 8)
     xmax = x0 + span
@@ -55,8 +78,11 @@ def case_ode(r, st, quick):
     if r.random() < 0.25:
         tol_exp = r.choice([10, 20, prec // 2, prec - 5])
         t["tol_exp"] = tol_exp
+    if explicit:
+        tol_exp = r.randint(20, prec - 10)
+        t["tol_exp"] = tol_exp
     if r.random() < 0.2:
-        t["degree"] = r.choice([12, 16, 20, 30])
+        t["degree"] = r.choice([12, 16, 20, 30] if not explicit else [12, 16, 21, 30, 41])
     # queries
     nq = r.randint(4, 9)
     queries = []
@@ -83,8 +109,14 @@ def case_ode(r, st, quick):
     st.note("ode", ode["ode"]); st.note("prec", prec); st.note("tol", "default" if tol_exp is None else "explicit")
     st.note("boundary_queries", sum(1 for q in queries if isinstance(q[0], list)))
     ot = ode_tokens(ode)
+    op = "odevalx" if ode["ode"] == "ricx" else "odeval"
     dim = 2 if ode["ode"] == "osc" else 1
     p_tol = prec if tol_exp is None else tol_exp
+    # the explicit-tolerance class: the requested tolerance is decided literally (k = 0) and under its own site
+    tol_class = tol_exp is not None and 20 <= tol_exp <= prec - 10
+    st.note("tol_class", "explicit 2^-t, 20<=t<=p-10" if tol_class else ("explicit, other" if tol_exp is not None else "default"))
+    if tol_class:
+        st.note("explicit_tol_ode", ode["ode"]); st.note("explicit_tol_t/p", "%.1f" % (round(5.0 * tol_exp / prec) / 5))
 
     def lines(res):
         out = {}
@@ -96,17 +128,31 @@ def case_ode(r, st, quick):
                 if is_dy(y):
                     # the caller's rounding to qp bits adds at most 2^-qp relative: only full/at-least-prec observations are judged
                     if qp >= prec:
-                        out["a%d_%d" % (v["i"], c)] = "odeval %s %d %s %s %d 10" % (ot, c, xq, dy_tokens(y), p_tol)
+                        out["a%d_%d" % (v["i"], c)] = "%s %s %d %s %s %d 10" % (op, ot, c, xq, dy_tokens(y), p_tol)
+                        if tol_class:
+                            out["s%d_%d" % (v["i"], c)] = "%s %s %d %s %s %d 0" % (op, ot, c, xq, dy_tokens(y), p_tol)
         return out
 
     def judge(res, ans):
         bad, und = [], []
         # (1) accuracy
+        nstrict = n10 = 0
         for k_, a in ans.items():
             if a == "violates":
-                bad.append("accuracy:%s" % k_)
+                if tol_class:
+                    nstrict += k_.startswith("s")
+                    n10 += k_.startswith("a")
+                else:
+                    bad.append("accuracy:%s" % k_)
             elif a != "ok":
                 und.append(k_)
+        if nstrict or n10:
+            deg = res.get("degree_used")
+            zero_top = ode["ode"] == "ricx" and ode["c"] == ode["x0"] and deg is not None and deg % 2 == 1
+            bad.append("accuracy[explicit-tol%s]: %d observed value(s) differ from the exact solution by more than the requested "
+                       "tol = 2^-%d (times max(|y|,1)), %d of them by more than 2^10*tol; mp.prec = %d, Taylor degree %s" %
+                       (",top-taylor-coefficient-zero" if zero_top else "", nstrict,
+                        tol_exp, n10, prec, deg))
         # (2) boundaries: prefix property across histories and the scout
         lists = [res["scout_boundaries"]] + [h["boundaries"] for h in res["hist"]]
         for L in lists:
@@ -147,22 +193,32 @@ def run(ctx):
     quick = ctx.quick
     n = 150 if quick else 4000
     cases = [case_ode(r, st, quick) for _ in range(n)]
-    info, fails = CO.run_cases(cases, ctx, nworkers=6, default_timeout=30.0, budget_s=70 if quick else 3000)
+    # explicit-tolerance class from its own generator stream (the older stream is unchanged)
+    r2 = random.Random(ctx.seed * 7919 + 34)
+    cases += [case_ode(r2, st, quick, explicit=True) for _ in range(60 if quick else 1500)]
+    info, fails = CO.run_cases(cases, ctx, nworkers=6, default_timeout=30.0, budget_s=100 if quick else 3600)
     # split the failing inputs by what failed, so that the order-dependence finding has its own stable site
     out = []
     for f in fails:
         w = f["what"]
         if "order-dependence[boundary" in w and "accuracy" not in w and "store:" not in w and "interior" not in w:
             f = dict(f, site="calculus.odes.odefun.get_series[boundary]")
+        elif "accuracy[explicit-tol,top-taylor-coefficient-zero]" in w and "order-dependence[interior" not in w and "store:" not in w:
+            f = dict(f, site="calculus.odes.odefun[accuracy,explicit-tol,top-taylor-coefficient-zero]")
+        elif "accuracy[explicit-tol]" in w:
+            # the requested tolerance is missed where the known first-segment defect cannot act: never merged with other sites
+            f = dict(f, site="calculus.odes.odefun[accuracy,explicit-tol]")
         elif "accuracy" in w and "order-dependence" not in w and "store:" not in w:
             f = dict(f, site="calculus.odes.odefun[accuracy]")
         out.append(f)
+    # report the most blatant miss of an explicit tolerance first (the runner prints the first violation)
+    out.sort(key=lambda f: 0 if ("accuracy[explicit-tol]" in f["what"] and ", 0 of them by more than 2^10*tol" not in f["what"]) else 1)
     s = info["summary"]
     evaluations = sum(sum(len(h["vals"]) for h in c["res"]["ok"]["hist"]) for c in cases if "ok" in c.get("res", {}))
     cov = {
         "evaluations": evaluations,
         "distinct_nontrivial": info["distinct_nontrivial"],
-        "programs": 3,   # odefun scalar form, vector form, get_series store
+        "programs": 3,   # odefun scalar form, vector form (default and explicit tolerance / degree), get_series store
         "disagreements_checked": evaluations,
         "traces_validated_against_impl": sum(len(c["res"]["ok"]["hist"]) for c in cases if "ok" in c.get("res", {})),
         "rule": "ODE with rational data from the three proved families; 4-12 queries (random dyadic points, exact boundary points of a scout run, "
